@@ -116,6 +116,20 @@ def store_ok(eng, st, R, tag):
                   qforall([k], z3.Implies(e != ABSENT, wf_tree(e)), patterns=[e]))
 
 
+def allocated(eng, st, s, objs):
+    """no reference held by the enforcer's containers points above the allocation pointer (a later allocation cannot alias it)"""
+    k = z3.String('ia!k')
+    out = [V.ref(s) < st.ap]
+    for o in objs:
+        e = z3.Select(V.m(val_(st, o)), k)
+        out.append(z3.And(V.ref(o) < st.ap, qforall([k], z3.Implies(z3.And(e != ABSENT, V.is_obj(e)), V.ref(e) < st.ap), patterns=[e])))
+    G = objs[2]
+    e = z3.Select(V.m(val_(st, G)), k)
+    dep = g_(st, e, '_deprecated_rule')
+    out.append(qforall([k], z3.Implies(z3.And(e != ABSENT, V.is_obj(dep)), V.ref(dep) < st.ap), patterns=[e]))
+    return z3.And(out)
+
+
 FLAGS = ('use_conf', 'overwrite', '_need_check_rule', '_informed_no_policy_file', 'suppress_deprecation_warnings',
          'suppress_default_change_warnings', 'skip_undefined_check')
 
@@ -144,6 +158,7 @@ def inv(eng, st, s, st0, tag):
             ('file-cache-apart-from-the-stores', cache_apart(eng, st, C, (F, G, R), tag + '5')),
             ('directory-stamps-well-formed', z3.And(M == M0, stamps_ok(eng, st, M, tag + '4'))),
             ('the-containers-are-different-objects', z3.Distinct(V.ref(R), V.ref(F), V.ref(G), V.ref(C), V.ref(M))),
+            ('everything-the-containers-hold-is-allocated', allocated(eng, st, s, (R, F, G, C, M))),
             ('default-rule-is-None-a-string-or-a-check', z3.Or(dr == NONE, V.is_str(dr), eng.isinst(dr, 'BaseCheck'))),
             ('policy-path-is-None-or-a-string', z3.Or(pp == NONE, V.is_str(pp))),
             ('policy-file-name-is-a-string', V.is_str(g_(st, s, 'policy_file'))),
@@ -155,7 +170,30 @@ LR_MODS = ('rules', 'file_rules', 'policy_path', 'use_conf', '_need_check_rule',
            '_deprecated_reason', '_deprecated_since', 'scope_types', 'rule', 'kind', 'match', 'default_rule')
 
 
+def register_idle(reg):
+    """load_rules on an enforcer that does not read configuration files (use_conf off, no forced reload) does nothing"""
+    def idle_pre(cx):
+        st, s = cx.st0, cx['self']
+        return [('enforcer-object', z3.And(V.is_obj(s), cx.eng.isinst_ref(V.ref(s), 'Enforcer'))),
+                ('switches-are-booleans', z3.And(V.is_bool(g_(st, s, 'use_conf')), V.is_bool(cx['force_reload']))),
+                ('not-reading-files', z3.And(z3.Not(truthy(g_(st, s, 'use_conf'))), z3.Not(truthy(cx['force_reload']))))]
+
+    def idle_post(cx, out):
+        if out.kind != 'ret':
+            return [False]
+        r = z3.Int('idle!r')
+        fields = sorted(set(cx.st0.heap) | set(out.st.heap) | set(LR_MODS))
+        return [('returns-None', out.value == NONE),
+                ('nothing-is-written', z3.And([qforall([r], z3.Select(out.st.H(f), r) == z3.Select(cx.st0.H(f), r)) for f in fields])),
+                ('nothing-is-allocated', out.st.ap == cx.st0.ap)]
+    reg.add(Contract('policy:Enforcer.load_rules#idle', pre=idle_pre, post=idle_post, props=('C09', 'C12'),
+                     doc='without use_conf and without a forced reload, load_rules reads nothing, writes nothing, allocates nothing '
+                         '(an enforcer that was given its rules through set_rules(use_conf=False) is not touched by the implicit load of '
+                         'every enforcement call)'))
+
+
 def register_chain3(reg, stubs, world):
+    register_idle(reg)
     if os.environ.get('VERIF_WIP') != '1':
         return
 
@@ -208,7 +246,7 @@ def register_chain3(reg, stubs, world):
 
     def frame_nonstamp(L):
         r = z3.Int('l1!r')
-        return qforall([r], z3.Implies(z3.And(r < L.entry.ap, z3.Not(stamp(r))),
+        return qforall([r], z3.Implies(z3.And(r < L.entry.ap, z3.Not(stamp(r)), r != V.ref(L.entry.loc['existing_policy_dirs'])),
                                        z3.Select(L.st.H('$val'), r) == z3.Select(L.entry.H('$val'), r)),
                        patterns=[z3.Select(L.st.H('$val'), r)])
 
@@ -217,12 +255,16 @@ def register_chain3(reg, stubs, world):
         lst = L.st.loc['existing_policy_dirs']
         seq = V.items(val_(st, lst))
         j = z3.Int('l1!j')
+        k1 = z3.String('l1!k')
+        e1_ = z3.Select(V.m(val_(st, g_(st, s, '_policy_dir_mtimes'))), k1)
         return inv(eng, st, s, L.cx.st0, 'i1') + [
             ('only-stamp-objects-are-written', frame_nonstamp(L)),
             ('the-list-of-existing-directories-is-a-private-list-of-strings', z3.And(
                 lst == L.entry.loc['existing_policy_dirs'], V.is_obj(lst), clsof(V.ref(lst)) == eng.cid('list'),
                 V.ref(lst) >= L.cx.st0.ap, V.is_list(val_(st, lst)),
                 qforall([j], z3.Implies(z3.And(j >= 0, j < z3.Length(seq)), V.is_str(seq[j]))))),
+            ('stamps-made-during-the-scan-are-newer-than-the-list', qforall([k1], z3.Implies(e1_ != ABSENT, z3.Or(
+                stamp(V.ref(e1_)), V.ref(e1_) >= L.entry.ap)), patterns=[e1_])),
             ('the-reload-flag-is-a-boolean', V.is_bool(L.st.loc['force_reload_policy_dirs']))]
 
     def inv2(L):
@@ -259,4 +301,4 @@ def register_chain3(reg, stubs, world):
                      loops={1: LoopSpec(inv1, havoc=('$val', 'args')),
                             2: LoopSpec(inv2, havoc=LR_MODS + ('args',)),
                             3: LoopSpec(inv3, havoc=('$val', 'rules', 'args'))},
-                     join='all', doc='loading view of load_rules'))
+                     doc='loading view of load_rules'))
